@@ -80,7 +80,7 @@ def ham_level(rep: Report, rng, count: int) -> None:
         n = rng.randint(1, 8)
         P = dict(n=n, om=[complex(rng.uniform(0, 12), 0) for _ in range(n)], de=[complex(rng.uniform(-20, 20), 0) for _ in range(n)],
                  U=[[0.0] * n for _ in range(n)], table={},
-                 phis=(c06.pi_phases(rng, n) if i % 3 == 0 else [rng.choice([0.0, rng.uniform(-3, 3), rng.uniform(-3, 3)]) for _ in range(n)]))
+                 phis=(c06.pi_phases(rng, n) if i % 6 == 0 else c06.half_pi_phases(rng, n) if i % 6 == 3 else [rng.choice([0.0, rng.uniform(-3, 3), rng.uniform(-3, 3)]) for _ in range(n)]))
         for a in range(n):
             for b in range(a + 1, n):
                 P["U"][a][b] = P["U"][b][a] = rng.uniform(0, 30)
@@ -118,7 +118,8 @@ def gen_seq(rng, n, steps, pi_mode=None):
         ph = [[(first if t % 2 == 0 else math.pi - first)] * n for t in range(steps)]
     elif pi_mode == "atoms":                    # per-atom multiples of pi, e.g. [pi, 0, pi], constant or changing between steps
         from harness.props import c06
-        ph = [c06.pi_phases(rng, n) for _ in range(steps)]
+        gen = c06.pi_phases if rng.random() < 0.5 else c06.half_pi_phases       # multiples of pi, or of pi/2 (purely sigma-y drive)
+        ph = [gen(rng, n) for _ in range(steps)]
         if rng.random() < 0.5:
             ph = [ph[0][:] for _ in range(steps)]
     U = [[0.0] * n for _ in range(n)]
@@ -509,8 +510,13 @@ def pulser_phases(rep: Report, rng, count: int, replay_cases=None) -> None:
                 c = rng.choice([0.0, 0.4, 1.0, 1.9, 2.6, 3.3, 4.0, 4.9, 5.8])
                 if c != base_ph[-1]:
                     base_ph.append(c)
-            pulses = [(rng.choice([40, 60, 100]), rng.uniform(3, 9), rng.uniform(-6, 6), ph) for ph in base_ph]
             thetas = rng.sample([0.9, 1.7, 2.5, 3.14159, 4.0, 5.2, 7.0, -0.8, -2.0, -4.5], 2)
+            if i % 2 == 0:
+                # a pulse phase lands EXACTLY on 0, pi/2, pi, 3pi/2 or 2pi (cos or sin ~ 1e-16): base phases b, b + pi/2 (+ b + pi)
+                b = rng.choice([0.4, 1.1, 2.3])
+                base_ph = [b, b + math.pi / 2] + ([b + math.pi] if npul > 2 else [])
+                thetas = [k * math.pi / 2 - b for k in rng.sample([0, 1, 2, 3, 4], 2)] + [rng.choice([math.pi / 2, -math.pi / 2])]
+            pulses = [(rng.choice([40, 60, 100]), rng.uniform(3, 9), rng.uniform(-6, 6), ph) for ph in base_ph]
         rep.case(key=("pulser-phases", i), nontrivial=True, trace=False)
         data = dict(kind="pulser-phases", coords=coords, pulses=pulses, thetas=thetas)
         try:
